@@ -259,6 +259,21 @@ def run_session(case, root, fault=None, ns="run", count_lines=False):
                 if isinstance(e, HarnessError):
                     raise
                 raised = e
+            # The session is over and its objects are garbage: drop the frames the
+            # exception keeps alive and collect NOW (faults off, seams still on), so
+            # that finalizers run at a defined instant instead of during a later run.
+            if raised is not None:
+                try:
+                    raised.__traceback__ = None
+                    raised.__context__ = None
+                    raised.__cause__ = None
+                except Exception:
+                    pass
+            sm.fs_faults_enabled = False
+            tr.begin_op(EPILOGUE)
+            import gc
+
+            gc.collect()
     fired = bool(sm.faults_fired) or phys.fired or (li is not None and li.fired) or isinstance(raised, UserError)
     return dict(
         raised=raised,
@@ -550,6 +565,7 @@ def execute(case):
         stats["exdev_hits"] += ref.get("exdev_hits", 0)
         faults = enumerate_faults(case, ref, d)
         digest_parts = [ref["trace"].digest()]
+        prev_fault = None
         for fault in faults:
             _reset(root, pre_bytes)
             r = run_session(case, root, fault)
@@ -560,7 +576,18 @@ def execute(case):
             if fault["type"] == "fs":
                 k = next((i for i, ev in enumerate(ref_events) if (ev[1], ev[2]) == (fault["op"], fault["local"])), None)
                 if k is not None and r["trace"].events[:k] != ref_events[:k]:
-                    raise HarnessError("faulted run diverged from the reference before the fault site")
+                    # Same seed, same session, yet a different trace before the fault
+                    # fired: either the simulator is not deterministic (my bug), or an
+                    # earlier session of this case left state behind in the process.
+                    # Decide by running the fault-free session right here.
+                    _reset(root, pre_bytes)
+                    probe = run_session(case, root, None)
+                    post_p = _state(root)
+                    if probe["raised"] is not None or post_p != ref_new:
+                        viol.append(dict(cls="retry-failed", key=f"{case['workload']}:state-left-behind", fault=prev_fault, msg=f"after an earlier failed session in the same process a fault-free run on the same path {'raised ' + repr(probe['raised']) if probe['raised'] is not None else 'produced a different archive'} (state left behind by the failed session)"))
+                        break
+                    raise HarnessError("faulted run diverged from the reference before the fault site, but a fault-free run still reproduces the reference")
+            prev_fault = fault
             post = _state(root)
             kind_name = fault.get("kind", fault["type"])
             digest_parts.append(f"{fault['site']}|{kind_name}|{r['trace'].digest()}|{post[0]}|{type(r['raised']).__name__}")
@@ -594,6 +621,7 @@ def execute(case):
                 ntail = int(spec.get("tail_max", 1))
                 if tail and tp > 0 and d.chance("tail", tp):
                     picks = d.sample("tail:site", tail, min(ntail, len(tail)))
+                    stop = False
                     for ev2 in picks:
                         f2 = fs_fault_for(d, ev2)
                         both = dict(fault)
@@ -625,8 +653,12 @@ def execute(case):
                         post3 = _state(root)
                         if rr2["raised"] is not None:
                             viol.append(dict(cls="retry-failed", key=f"{case['workload']}:{both['site']}", fault=both, msg=f"after a session that failed with two faults ({r2['raised']!r}) a clean re-run on the same path raised {rr2['raised']!r}"))
+                            stop = True
+                            break
                         elif post3 != ref_new:
                             viol.append(dict(cls="retry-wrong-result", key=f"{case['workload']}:{both['site']}", fault=both, msg=f"clean re-run after a two-fault failure produced {_describe(post3)}, different from the fault-free result"))
+                    if stop:
+                        break
                     # restore the state left by the single-fault run for what follows
                     _reset(root, pre_bytes)
                     r = run_session(case, root, fault)
@@ -670,7 +702,10 @@ def execute(case):
             fkey = f"{case['workload']}:{fault['site']}:{fault.get('kind', fault['type'])}"
             if rr["raised"] is not None:
                 viol.append(dict(cls="retry-failed", key=fkey, fault=fault, msg=f"after a failed session ({r['raised']!r}) a clean re-run on the same path raised {rr['raised']!r}"))
-                continue
+                # whatever made the clean run fail may still be around (state kept in
+                # the process, files left behind): later faults of this workload would
+                # only report its consequences
+                break
             if post2 != ref_new:
                 viol.append(dict(cls="retry-wrong-result", key=fkey, fault=fault, msg=f"clean re-run after failure produced {_describe(post2)}, different from the fault-free result"))
                 continue
